@@ -339,4 +339,52 @@ v("27f-only-first-meta-task-cancelled", [(P, "        for meta_task in meta_task
 v("27g-flush-forgets-groups", [(P, "        for task_id in finished:\n            self._tasks_ended.pop(task_id, None)\n", "        self._task_groups.clear()\n        for task_id in finished:\n            self._tasks_ended.pop(task_id, None)\n")], {"C07": "R07.6"})
 v("P11-cancel_all-copy-then-clear", [(P, "        while self._task_groups:\n            group_name, group_reg = self._task_groups.popitem()\n            self._cancel_and_remove_all_from_group(group_name, group_reg, **kw)", "        for group_name, group_reg in list(self._task_groups.items()):\n            self._cancel_and_remove_all_from_group(group_name, group_reg, **kw)\n        self._task_groups.clear()")], {"C07": "ok"})
 
+# ---------------------------------------------------------------- C08 / C09
+GC_TAIL = """        await gather(
+            *self._tasks_ended.values(),
+            *self._tasks_cancelled.values(),
+            *self._tasks_running.values(),
+            return_exceptions=return_exceptions,
+        )
+        self._tasks_ended.clear()
+        self._tasks_cancelled.clear()
+        self._tasks_running.clear()
+        self._closed.set()
+"""
+v("28-closed-set-before-second-gather", [(P, GC_TAIL, "        self._closed.set()\n" + GC_TAIL.replace("        self._closed.set()\n", ""))], {"C08": "R08.1"})
+v("29-spawner-wait-suppressed-again", [(P, """        await gather(*self._meta_tasks_cancelled, return_exceptions=True)
+        await gather(
+            *not_cancelled_meta_tasks,
+            return_exceptions=return_exceptions,
+        )
+""", """        with suppress(CancelledError):
+            await gather(
+                *self._meta_tasks_cancelled,
+                *not_cancelled_meta_tasks,
+                return_exceptions=return_exceptions,
+            )
+""")], {"C08": "R08.2"})
+v("29b-cancelled-spawners-gather-not-true", [(P, "        await gather(*self._meta_tasks_cancelled, return_exceptions=True)\n", "        await gather(*self._meta_tasks_cancelled, return_exceptions=return_exceptions)\n")], {"C08": "R08.2"})
+v("30-running-left-out-of-gather", [(P, "            *self._tasks_cancelled.values(),\n            *self._tasks_running.values(),\n            return_exceptions=return_exceptions,", "            *self._tasks_cancelled.values(),\n            return_exceptions=return_exceptions,")], {"C08": "R08.1"})
+v("30b-running-spawners-not-awaited", [(P, "        await gather(\n            *not_cancelled_meta_tasks,\n            return_exceptions=return_exceptions,\n        )\n", "")], {"C08": "R08.1"})
+v("30c-lock-after-first-wait", [(P, "        self.lock()\n        not_cancelled_meta_tasks = (", "        not_cancelled_meta_tasks = ("), (P, "        self._meta_tasks_cancelled.clear()\n        self._group_meta_tasks_running.clear()\n", "        self.lock()\n        self._meta_tasks_cancelled.clear()\n        self._group_meta_tasks_running.clear()\n")], {"C08": "R08.1"})
+v("30d-unlock-reopens-closed-pool", [(P, "        if self._locked:\n            self._locked = False\n", "        if self._locked:\n            self._locked = False\n            self._closed.clear()\n")], {"C08": "R08.1"})
+v("30e-tasks-before-spawners", [(P, "        await gather(*self._meta_tasks_cancelled, return_exceptions=True)\n        await gather(\n            *not_cancelled_meta_tasks,\n            return_exceptions=return_exceptions,\n        )\n", ""),
+   (P, "        self._tasks_ended.clear()\n        self._tasks_cancelled.clear()\n        self._tasks_running.clear()\n        self._closed.set()", "        await gather(*self._meta_tasks_cancelled, return_exceptions=True)\n        await gather(\n            *not_cancelled_meta_tasks,\n            return_exceptions=return_exceptions,\n        )\n        self._tasks_ended.clear()\n        self._tasks_cancelled.clear()\n        self._tasks_running.clear()\n        self._closed.set()")], {"C08": "R08.1"})
+v("30f-running-not-forgotten-on-close", [(P, "        self._tasks_cancelled.clear()\n        self._tasks_running.clear()\n        self._closed.set()", "        self._tasks_cancelled.clear()\n        self._closed.set()")], {"C08": "R08.1"})
+v("31-locked-before-closed", [(P, "        if self._closed.is_set():\n            raise PoolIsClosed\n        if self._locked and not ignore_lock:\n            raise PoolIsLocked\n", "        if self._locked and not ignore_lock:\n            raise PoolIsLocked\n        if self._closed.is_set():\n            raise PoolIsClosed\n")], {"C09": "R09.2", "C08": "R08.3"})
+v("32-apply-registers-before-check", [(P, "        self._check_start(function=func)\n        if group_name is None:\n            group_name = self._generate_group_name(\"apply\", func)\n        if group_name in self._task_groups:\n            raise TaskGroupAlreadyExists(group_name)\n        self._task_groups.setdefault(group_name, TaskGroupRegister())\n",
+   "        if group_name is None:\n            group_name = self._generate_group_name(\"apply\", func)\n        if group_name in self._task_groups:\n            raise TaskGroupAlreadyExists(group_name)\n        self._task_groups.setdefault(group_name, TaskGroupRegister())\n        self._check_start(function=func)\n")], {"C09": "R09.1"})
+v("33-start-calls-before-check", [(P, "        self._check_start(function=self._func)\n        group_name = f\"start-group-{self._start_calls}\"\n        self._start_calls += 1\n", "        group_name = f\"start-group-{self._start_calls}\"\n        self._start_calls += 1\n        self._check_start(function=self._func)\n")], {"C09": "R09.1"})
+v("34-num_concurrent-check-dropped", [(P, "        if num_concurrent < 1:\n            raise ValueError(  # noqa: TRY003\n                \"`num_concurrent` must be a positive integer.\"\n            )\n", "")], {"C09": "R09.3"})
+v("34b-num_concurrent-lt-zero", [(P, "        if num_concurrent < 1:\n", "        if num_concurrent < 0:\n")], {"C09": "R09.3"})
+v("35-setter-write-before-check", [(P, "        if value < 0:\n            raise ValueError(\"Pool size can not be less than 0\")  # noqa: TRY003\n        self._enough_room._value = value\n", "        self._enough_room._value = value\n        if value < 0:\n            raise ValueError(\"Pool size can not be less than 0\")  # noqa: TRY003\n")], {"C09": "R09.1"})
+v("35b-apply-ignores-lock", [(P, "        self._check_start(function=func)\n        if group_name is None:\n            group_name = self._generate_group_name(\"apply\", func)", "        self._check_start(function=func, ignore_lock=True)\n        if group_name is None:\n            group_name = self._generate_group_name(\"apply\", func)")], {"C09": "R09.3"})
+v("35c-map-group-registered-before-dup-check", [(P, "        if group_name in self._task_groups:\n            raise TaskGroupAlreadyExists(group_name)\n        self._task_groups[group_name] = TaskGroupRegister()\n", "        existing = group_name in self._task_groups\n        self._task_groups[group_name] = TaskGroupRegister()\n        if existing:\n            raise TaskGroupAlreadyExists(group_name)\n")], {"C09": "viol"})
+v("35d-unlock-only-when-not-full", [(P, "        if self._locked:\n            self._locked = False\n", "        if self._locked and not self.is_full:\n            self._locked = False\n")], {"C09": "R09.4"})
+v("35e-lock-toggles", [(P, "        if not self._locked:\n            self._locked = True\n            log.info(\"%s is locked!\", str(self))\n", "        self._locked = not self._locked\n")], {"C09": "R09.4"})
+v("35f-simple-init-stores-before-check", [(P, "        if not iscoroutinefunction(func):\n            raise NotCoroutineFunction(func)\n        self._func: AnyCoroutineFunc = func\n", "        self._func: AnyCoroutineFunc = func\n        if not iscoroutinefunction(func):\n            raise NotCoroutineFunction(func)\n")], {"C09": "R09.1i"})
+v("35g-map-touches-iter-early", [(P, "        self._check_start(function=func)\n        if num_concurrent < 1:", "        arg_iter = iter(arg_iter)\n        self._check_start(function=func)\n        if num_concurrent < 1:")], {"C09": "any", "C05": "R05.2"})
+v("P-lock-unconditional-store", [(P, "        if not self._locked:\n            self._locked = True\n            log.info(\"%s is locked!\", str(self))\n", "        self._locked = True\n")], {"C09": "ok", "C08": "ok"})
+
 VARIANTS = V
